@@ -11,6 +11,8 @@
    task result, taskx callback result, queue node value, wheel slot, WaitClose.closeChan)
    are such instances; c18_rows_in_table: the source rows they were labelled from are rows
    of the access table, which the check regenerates from /repo and compares on every run.
+   c18_lock_discipline_race_free: accesses made only inside critical sections of one mutex
+   (cachex shard maps, WaitClose fields under wc.mutex) never race.
    c18_*_refuted: the pre-fix patterns (status check reading err without having observed
    the completion; two unordered writers of the task result) do race. *)
 From Coq Require Import String.
@@ -32,6 +34,18 @@ Print Assumptions c18_instances_race_free.
 Theorem c18_rows_in_table : ri_rows_in_table = true.
 Proof. vm_compute. reflexivity. Qed.
 Print Assumptions c18_rows_in_table.
+
+(* lock discipline: any number of threads, each running any list of critical sections
+   (Lock m; any plain reads/writes; Unlock m) on one mutex, any schedule: no race *)
+Theorem c18_lock_discipline_race_free :
+  forall (progs : list (list (list (bool * nat)))) (sched : list nat),
+    rc_raced (ls_mon (rc_lrun progs sched)) = false.
+Proof. exact lk_race_free. Qed.
+Print Assumptions c18_lock_discipline_race_free.
+
+Theorem c18_lock_rows_in_table : ri_lock_rows_in_table = true.
+Proof. vm_compute. reflexivity. Qed.
+Print Assumptions c18_lock_rows_in_table.
 
 Theorem c18_unguarded_status_refuted :
   rc_raced (ps_mon (rc_prun true {| pb_ws := [7]; pb_os := [1]; pb_readers := [(1, [7])] |} [0; 1; 1])) = true.
